@@ -5,6 +5,7 @@ import (
 	"github.com/modernizing/coca/pkg/domain/core_domain"
 	"io/ioutil"
 	"log"
+	"sort"
 	"strings"
 )
 
@@ -25,7 +26,16 @@ func (j *RemoveMethodApp) Refactoring(conf string) {
 	startParse(parsedDeps, parsedChange)
 }
 
+type renameEdit struct {
+	position core_domain.CodePosition
+	newName  string
+}
+
 func startParse(nodes []core_domain.CodeDataStruct, relates []support.RefactorChangeRelate) {
+	// positions come from the model of the unchanged sources, so all edits of a file are
+	// collected first and applied in one go
+	edits := make(map[string][]renameEdit)
+	defer func() { applyEdits(edits) }()
 	for _, pkgNode := range nodes {
 		for _, related := range relates {
 			oldInfo := support.BuildMethodPackageInfo(related.OldObj)
@@ -34,7 +44,7 @@ func startParse(nodes []core_domain.CodeDataStruct, relates []support.RefactorCh
 			if pkgNode.Package+pkgNode.NodeName == oldInfo.Package+oldInfo.Class {
 				for _, method := range pkgNode.Functions {
 					if method.Name == oldInfo.Method {
-						updateSelfRefs(pkgNode, method, newInfo)
+						updateSelfRefs(edits, pkgNode, method, newInfo)
 					}
 				}
 			}
@@ -43,7 +53,7 @@ func startParse(nodes []core_domain.CodeDataStruct, relates []support.RefactorCh
 				for _, methodCall := range method.FunctionCalls {
 					if methodCall.Package+methodCall.NodeName == oldInfo.Package+oldInfo.Class {
 						if methodCall.FunctionName == oldInfo.Method {
-							updateSelfRefs(pkgNode, methodCallToMethodModel(methodCall), newInfo)
+							updateSelfRefs(edits, pkgNode, methodCallToMethodModel(methodCall), newInfo)
 						}
 					}
 				}
@@ -66,24 +76,43 @@ func methodCallToMethodModel(call core_domain.CodeCall) core_domain.CodeFunction
 	}
 }
 
-func updateSelfRefs(node core_domain.CodeDataStruct, method core_domain.CodeFunction, info *support.PackageClassInfo) {
-	path := node.FilePath
-	input, err := ioutil.ReadFile(path)
-	if err != nil {
-		log.Fatalln(err)
-	}
+func updateSelfRefs(edits map[string][]renameEdit, node core_domain.CodeDataStruct, method core_domain.CodeFunction, info *support.PackageClassInfo) {
+	edits[node.FilePath] = append(edits[node.FilePath], renameEdit{method.Position, info.Method})
+}
 
-	lines := strings.Split(string(input), "\n")
-
-	for i, line := range lines {
-		if i == method.Position.StartLine-1 {
-			newLine := line[:method.Position.StartLinePosition] + info.Method + line[method.Position.StopLinePosition:]
-			lines[i] = newLine
+func applyEdits(allEdits map[string][]renameEdit) {
+	for path, edits := range allEdits {
+		input, err := ioutil.ReadFile(path)
+		if err != nil {
+			log.Fatalln(err)
 		}
-	}
-	output := strings.Join(lines, "\n")
-	err = ioutil.WriteFile(path, []byte(output), 0644)
-	if err != nil {
-		log.Fatalln(err)
+
+		lines := strings.Split(string(input), "\n")
+
+		// right to left, so that the columns of the edits still to come stay valid
+		sort.SliceStable(edits, func(i, j int) bool {
+			return edits[i].position.StartLinePosition > edits[j].position.StartLinePosition
+		})
+		done := make(map[[2]int]bool)
+		for _, edit := range edits {
+			key := [2]int{edit.position.StartLine, edit.position.StartLinePosition}
+			i := edit.position.StartLine - 1
+			if done[key] || i < 0 || i >= len(lines) {
+				continue
+			}
+			done[key] = true
+			// columns count characters, not bytes
+			line := []rune(lines[i])
+			if edit.position.StartLinePosition > len(line) || edit.position.StopLinePosition > len(line) {
+				continue
+			}
+			lines[i] = string(line[:edit.position.StartLinePosition]) + edit.newName + string(line[edit.position.StopLinePosition:])
+		}
+
+		output := strings.Join(lines, "\n")
+		err = ioutil.WriteFile(path, []byte(output), 0644)
+		if err != nil {
+			log.Fatalln(err)
+		}
 	}
 }
